@@ -2,6 +2,13 @@
 PENDING_REASON = "static rules designed in DESIGN.md §3 but the check is not registered yet (under construction)"
 
 CLAIMS = {
+    "C01": {
+        "technique": "static analysis: wall-clock taint of the turn loop and every canonical-path function into log payload keys (mask table extracted from normalize_for_identity as sanitiser), branch conditions, returns, stores and call arguments; guard classification of every clock read (absent-logical-input fallback / default-parameter fallback with call-site obligations / timing-only); hit-vs-fresh return comparison of the T1 worker followed through the fold into the canonical record; "
+                     "flow-sensitive iteration-order typing (sets, dict-view algebra, directory listings and what inherits their order) with total-key-sort dominance as the only discharge; effect query for RNG / uuid / pid reads",
+        "text": "Decides: every value derived from time.perf_counter / time.time / datetime.now in run_turn, the reflection runner, apply, snapshot, the stages, the index and the logging helpers reaches a canonical stream only under a key the identity normaliser masks for that stream, decides no branch, and leaves its function only under a masked key; every wall-clock read in stage code is either a fallback for an absent logical input or a default-parameter fallback whose call sites all supply the reference time; apply.now is rebuilt from ctx.now_ms; "
+                "no field of the canonical T1 record differs between the cache-hit and the fresh return of the per-graph worker other than through the (process-global) cache; no set, dict-view algebra result or directory listing (or list / dict / return value that inherits its order) is indexed, sliced, joined, serialised, summed, consumed by a first-match loop or keyed max/min without a dominating total-key sort; the stages and the deterministic embedding adapter reach no RNG / uuid / pid read.",
+        "note": "Not decided: byte equality of two executions, floating-point / BLAS reproducibility, thread timing (the order-restoring structure is C09), total-order tie-breaks inside the stages (C03/C11/C12/C18). Order typing follows locals, one call level of returns and arguments; collections stored in attributes or nested containers are not followed. 11 known findings: wall-clock driven yields (5 stage boundaries + the yield_reason field), the reflection wall budget, and the T1 cache counters / max_delta that depend on the process-global cache.",
+    },
     "C02": {
         "technique": "static analysis: forward flow of gated-subtree configuration reads (access-path evaluation, closure-aware) to observable uses with gate dominance / conjunction as the only discharges, callee-entered-under-gate summaries, gate dominance of artefact writers and of GEL / scheduler call sites, control dependence of the validator's materialisation",
         "text": "Decides for the anchored gate consumers (T1 incl. its closure and cache selection, T2 cache selection, apply_quality, budget derivation, the reflection runner/backends/writer, parallel predicates): every value read from perf.*, perf.parallel.*, graph.*, t2.quality.*, t2.hybrid.* or scheduler.* reaches a branch, loop, call argument, return or store only where its gate is known true, "
